@@ -429,7 +429,13 @@ def judge_sampling(chk, emitted, t, rng):
         for rep in range(2 if t == "quick" else 6):
             z, prof = marker_column(nz, rng)
             for (lx, ly) in ((1.0, 0.0), (0.0, 1.0), (0.75, -0.5)):
-                Ms, Stot = layer_matrices(z, prof, lx, ly)
+                try:
+                    Ms, Stot = layer_matrices(z, prof, lx, ly)
+                except np.linalg.LinAlgError:
+                    # the recorded states do not span the layer maps (e.g. a requested node comes back empty): the
+                    # identification (drift-only) has nothing to say; the comparison with the exact solution decides
+                    chk.drift_note("sampling identification: the states returned by ivp_solver for a %d-node marker column are singular (an output node carries no state)" % nz)
+                    continue
                 for i, M in enumerate(Ms):
                     (err, c, d), (err2, c2, d2), table = identify_layer(M, i, z, prof, lx, ly)
                     n += 1
@@ -470,7 +476,11 @@ def judge_sampling(chk, emitted, t, rng):
             nx, ny, dom = 8, 6, (8.0 * 2 * np.pi, 6.0 * 2 * np.pi)       # kx = mx * 2 pi / 16 pi ... unit-free small wavenumbers
             mx, my = 1, 1
             kx, ky = 2 * np.pi * mx / dom[0], 2 * np.pi * my / dom[1]
-            Ms, Stot = layer_matrices(z, prof, kx, ky)
+            try:
+                Ms, Stot = layer_matrices(z, prof, kx, ky)
+            except np.linalg.LinAlgError:
+                chk.drift_note("boundary-node identification: the states returned by ivp_solver for a %d-node marker column are singular" % nz)
+                continue
             got = code_response(z, prof, mx, my, (nx, ny), dom, [0])[0][0]
             u, v, Kx, Ky, Kz = prof
             cands = []
